@@ -99,8 +99,12 @@ def check(ctx):
         ctx.undecided('SIB', 'unpack_sections / unpack_lots agree on the range skeleton', 'one skeleton not recognised')
     ctx.attempt(_routes)
     ctx.attempt(every_match_registers, rule='TBL')
+    from .c01 import emitted_trs_accepted    # every section number the unpacker can emit gives a valid TRS (one tract per section)
+    ctx.attempt(emitted_trs_accepted)
     from .c08 import twprge_negatives        # a section list must reach the section unpacker, not a Twp/Rge scrubber
     ctx.attempt(twprge_negatives)
+    ctx.attempt(common.reorder_in_place, [f for f in ctx.repo.funcs.values() if f.module.name.endswith(
+        ('plssdesc.plss_parse', 'unpack.unpackers', 'tract.tract_parse'))])
     ctx.attempt(common.dedup_idioms, [f for f in ctx.repo.funcs.values() if f.module.name.endswith(
         ('plssdesc.plss_parse', 'unpack.unpackers', 'tract.tract_parse'))])
     ctx.attempt(_sibling_through)
